@@ -32,9 +32,9 @@ var errHandlerSentinel = errors.New("sentinel: unknown-option handler error")
 
 type RealCfg struct {
 	Handler    *HandlerSpec
-	CmdHandler bool  // install a CommandHandler that logs and calls Execute
-	ExecErr    error // error returned by Execute
-	Ini        string // INI text read (normal mode) before the command line is parsed
+	CmdHandler bool     // install a CommandHandler that logs and calls Execute
+	ExecErr    error    // error returned by Execute
+	Ini        string   // INI text read (normal mode) before the command line is parsed
 	Warmup     []string // an earlier, unrelated ParseArgs call on the same parser (nil: none)
 	HasWarmup  bool
 }
